@@ -1,6 +1,7 @@
 import Proofs.Small
 import Proofs.Resolve
 import Proofs.WeMapRun
+import Proofs.HeadlinesAll
 /-! C04 — webentity resolution is longest-prefix match over the net prefix edits, in full: in every reachable
     state resolution returns the id at the longest stem-prefix of the query that carries one (`C04_resolve`,
     Proofs/Resolve), and over histories the attachment map is exactly the fold of the abstract edits
@@ -139,5 +140,25 @@ theorem C04_delete {s : State} {t : T} (h : Shape s t) (w : Nat) (ps : List Byte
     (¬ deleteOk s.weMap w ps →
       (s.deleteWebentity w ps).2 = .error .traph ∧ (s.deleteWebentity w ps).1 = s) :=
   Traph.deleteWebentity_spec h w ps hne
+
+section EveryHistory
+open Traph State Pag Layout
+/-! ### every history (Proofs/Discipline, SinceClear, ReachableAll, HeadlinesAll) -/
+
+/-- EVERY HISTORY, `clear` and `reopen` included, no request assumed away: the only hypotheses are that byte strings cut into at least one stem (`OpWf`), rule anchors are whole LRUs (`rulesCanonical`, `Canon`) and the caller re-supplies on `reopen` the rules the index carries, as the API requires (`Disciplined`); `clear` acts as a reset (`sinceClear`).  -/
+theorem C04_history_all (cfg : Config) (dflt : Rule) (rules : List (Bytes × Rule)) (ops : List Op)
+    (hr : rulesCanonical rules) (hwe : ∀ op ∈ sinceClear ops, OpWfWe op)
+    (hd : Disciplined (State.fresh cfg dflt rules []).1 ops) (q : Bytes) :
+    let s0 := (State.fresh cfg dflt rules []).1
+    let M := specFold (fun _ => 0) (sinceClearT (s0.transcript ops))
+    (∀ w, (s0.run ops).retrieveWebentity q = .ok w ↔
+      ∃ k, LongestAt M (lruIter q) k ∧ w = M ((lruIter q).take k)) ∧
+    (∀ e, (s0.run ops).retrieveWebentity q = .error e ↔ e = .traph ∧ NoneAt M (lruIter q)) ∧
+    (∀ p, (s0.run ops).retrievePrefix q = .ok p ↔
+      ∃ k, LongestAt M (lruIter q) k ∧ p = ((lruIter q).take k).flatten) ∧
+    (∀ e, (s0.run ops).retrievePrefix q = .error e ↔ e = .traph ∧ NoneAt M (lruIter q)) :=
+  Traph.C04_history_all cfg dflt rules ops hr hwe hd q
+
+end EveryHistory
 
 end Traph.Props
